@@ -248,7 +248,12 @@ def build(rspec, model):
     if prot == "default":
         mark_protected_tags(lib)
     elif prot is not None:
-        mark_protected_tags(lib, list(prot))
+        mine = list(prot)
+        mark_protected_tags(lib, mine)
+        # the list stays the caller's: what the caller does with it afterwards must not change the library's protection
+        mine.reverse()
+        mine.append("alpha")
+        del mine[:-1]
     via = rspec.get("via", "settings")
     if rspec.get("fmt") is None or via == "global":
         settings = None
